@@ -347,6 +347,19 @@ func (p *Program) litElems(fi *FuncInfo, e ast.Expr, depth int) []*ast.FuncLit {
 			}
 			if fl, ok := Unparen(el).(*ast.FuncLit); ok {
 				out = append(out, fl)
+				continue
+			}
+			// an element naming a local closure: step := func(…){…}; table{…, step, …}
+			if id, ok := Unparen(el).(*ast.Ident); ok {
+				if o, ok := info.Uses[id].(*types.Var); ok {
+					for _, d := range p.Locals(fi).Defs[o] {
+						if d.Kind == DefAssign {
+							if fl, ok := Unparen(d.Expr).(*ast.FuncLit); ok {
+								out = append(out, fl)
+							}
+						}
+					}
+				}
 			}
 		}
 		return out
